@@ -25,7 +25,7 @@ pub open spec fn ks_wf(k: &Keyspace, w: World) -> bool {
     &&& sup_wf(&k.supervisor)
     &&& w.trees.dom().contains(k.id) && k.tree.id@ == k.id
     &&& k.is_poisoned.id@ == w.db_poison
-    &&& w.deleted.dom().contains(k.is_deleted.id@)
+    &&& w.deleted.dom().contains(k.is_deleted.id@) && k.is_deleted.id@ == k.id as int   // convention: flag identity = keyspace id
     &&& w.trees[k.id].manual_persist == k.config.manual_journal_persist
 }
 impl Keyspace {
@@ -41,3 +41,4 @@ pub open spec fn into_slice<K: Into<Slice>>(key: K, k2: Slice) -> bool { call_en
 /// structural well-formedness of the tracker handle (which counter / which atomics it holds) is established by
 /// SnapshotTracker::new and is visible only in U-TRACKER, where the real struct is extracted
 pub open spec fn tracker_wf_publish(t: &SnapshotTracker) -> bool { true }
+pub trait AbstractTree {}   // lsm_tree::AbstractTree is imported by name in some bodies (`use crate::AbstractTree;`); methods are on the AnyTree shim
